@@ -85,6 +85,40 @@ def shared_intron_locus(w, gid, chrom, pos, order, site_class):
     return ga, gb, shared, end
 
 
+def contested_intron_locus(w, gid, chrom, pos, true_strand, wrong_first):
+    """An intron I1 annotated on isoforms of BOTH strands (one isoform of the strand the reference supports, two of the other),
+    and an unannotated isoform of the supported strand that uses I1 followed by an intron whose sites are canonical on neither
+    strand: the only informative splice site and the tails of its reads name the supported strand, the annotation majority
+    names the other one."""
+    span = 2000
+
+    def m(a, b):       # mirror local coordinates for '-' so that the novel part is always at the 3' side
+        return (pos + a, pos + b) if true_strand == "+" else (pos + span - b, pos + span - a)
+
+    def exs(lst):
+        e = [m(a, b) for a, b in lst]
+        return sorted(e)
+    other = "-" if true_strand == "+" else "+"
+    tp1 = exs([(0, 300), (600, 900), (1500, 1800)])
+    tm1 = exs([(120, 300), (600, 760)])
+    tm2 = exs([(40, 300), (600, 840)])
+    novel = exs([(0, 300), (600, 800), (1100, 1400)])
+    gs = Gene(gid + "P", chrom, true_strand)
+    gs.transcripts.append(Transcript(gid + "P.t1", gid + "P", chrom, true_strand, tp1, True, "contested-intron"))
+    gs.hidden.append(Transcript(gid + "P.h1", gid + "P", chrom, true_strand, novel, False, "contested-intron-novel"))
+    go = Gene(gid + "M", chrom, other)
+    go.transcripts.append(Transcript(gid + "M.t1", gid + "M", chrom, other, tm1, True, "contested-intron"))
+    go.transcripts.append(Transcript(gid + "M.t2", gid + "M", chrom, other, tm2, True, "contested-intron"))
+    for i in gs.transcripts[0].introns:
+        w.plant_sites(chrom, i, true_strand, "canonical")
+    contested = [i for i in gs.transcripts[0].introns if i in go.transcripts[0].introns][0]
+    for i in gs.hidden[0].introns:
+        if i != contested:
+            w.plant_sites(chrom, i, true_strand, "none")
+    w.genes += [go, gs] if wrong_first else [gs, go]
+    return pos + span
+
+
 def make_world(seed):
     w = World(seed)
     rng = w.rng
@@ -100,6 +134,9 @@ def make_world(seed):
                 ga, gb, shared, end = shared_intron_locus(w, "S%d_%d" % (ci + 1, k), chrom, pos, order, sc)
                 truth_shared.append((chrom, shared, order, sc))
                 pos = end + rng.randint(2500, 3500)
+        for k, (ts, wf) in enumerate((("+", True), ("-", True), ("+", False), ("-", False))):
+            end = contested_intron_locus(w, "V%d_%d" % (ci + 1, k + 1), chrom, pos, ts, wf)
+            pos = end + rng.randint(2500, 3500)
         # ordinary genes with all site classes, hidden isoforms for novel models
         for gi, sc in enumerate(("canonical", "gc_ag", "at_ac", "opposite", "none", "canonical")):
             g, end = w.make_gene("G%d_%d" % (ci + 1, gi + 1), chrom, pos, rng.choice("+-"), n_exons=rng.randint(4, 6),
@@ -142,7 +179,7 @@ def make_world(seed):
                 w.plant_sites(t.chrom, (ex[-1][1] + 1, right_exon[0] - 1), t.strand, "canonical")
                 w.make_read(t.chrom, ex + [right_exon], truth={"src": t.id, "class": "extra-right-exon-outside-gene"})
         for t in g.hidden:
-            for _ in range(7):
+            for _ in range(24 if t.kind == "contested-intron-novel" else 7):
                 w.read_from_transcript(t, mode="full", jitter=0, polya=True, flag=rng.choice((0, 16)))
     return w, truth_shared
 
@@ -151,7 +188,7 @@ def run(chk, scratch):
     thorough = chk.tier == "thorough"
     chk.rule = ("worlds with introns canonical on '+', on '-', on neither (GT-AG, GC-AG, AT-AC and reverse complements), loci where a '+' and a '-' "
                 "isoform share an intron exactly (both processing orders x three site classes), reads with extra introns outside the gene region, "
-                "hidden isoforms for novel models; --check_canonical with every --report_canonical level and thread counts; every logged "
+                "hidden isoforms for novel models (also over an intron annotated on both strands, the annotation majority contradicting the reference); --check_canonical with every --report_canonical level and thread counts; every logged "
                 "check_sites_are_canonical query, every Canonical= TSV value, every Canonical GTF attribute and every novel model strand is judged. "
                 "non-trivial = distinct (intron, strand) pairs queried; of special interest introns queried with both strands in one locus")
     n_seeds = 8 if thorough else 2
@@ -271,6 +308,8 @@ def run(chk, scratch):
                     if h is not None:
                         evidence["polyA-of-source-reads"] = h.strand
                     chk.count("novel_model_strands_judged")
+                    if h is not None and h.kind == "contested-intron-novel":
+                        chk.count("novel_models_over_an_intron_annotated_on_both_strands")
                     if t["strand"] in ("+", "-") and evidence and t["strand"] not in evidence.values():
                         chk.violation("novel-model-strand-contradicts-all-evidence",
                                       "%s: %s reported on %s, evidence %s" % (desc, tid, t["strand"], evidence), wit)
@@ -285,5 +324,7 @@ def run(chk, scratch):
                        "records with strand '.' have no reported strand and are not judged",
                        "a novel model's strand is a violation only when it contradicts every available kind of evidence"]
     chk.inconclusive_if(queries == 0, "canonical monitor never fired")
+    chk.inconclusive_if(chk.extra.get("novel_models_over_an_intron_annotated_on_both_strands", 0) == 0,
+                        "no novel model over an intron annotated on both strands was produced")
     chk.inconclusive_if(both_strands == 0, "no intron was queried on both strands within one locus")
     chk.min_nontrivial = 50
